@@ -1361,6 +1361,110 @@ pub fn run(ctx: &mut Ctx, eng: &mut dyn Engine) {
         }
     }
 
+    // ---- 19b. BYTES AFTER THE END OF THE COMPRESSED STREAM (review batch 4): the stored-block stream of family 19 followed by k zero
+    //            bytes, Transfer-Length = |stream| + k.  The flate2 decoders consume nothing after the end of the stream (read = Ok(0)):
+    //            the extra bytes stay in the decoder's BufReader / in the ring; the object COMPLETES when they fit (k < ring capacity
+    //            2*64 - 1), and decode_write_pkt fails ("Decoder does not consume its input") once the ring was full twice in a row.
+    //            Exercises the ring-full / `stalled` branch of decode_write_pkt (dwLoop) on both sides.
+    for &cenc in &[Cenc::Gzip, Cenc::Zlib, Cenc::Deflate] {
+        for size in [50usize, 100] {
+            let data = content(&mut rng, size);
+            let stored: Vec<u8> = {
+                let l = size as u16;
+                let mut v = vec![0x01, (l & 0xff) as u8, (l >> 8) as u8, (!l & 0xff) as u8, (!l >> 8) as u8];
+                v.extend_from_slice(&data);
+                v
+            };
+            let stream: Vec<u8> = match cenc {
+                Cenc::Gzip => {
+                    let mut v = vec![0x1f, 0x8b, 8, 0, 0, 0, 0, 0, 0, 0xff];
+                    v.extend_from_slice(&stored);
+                    v.extend_from_slice(&crc32(&data).to_le_bytes());
+                    v.extend_from_slice(&(size as u32).to_le_bytes());
+                    v
+                }
+                Cenc::Zlib => {
+                    let mut v = vec![0x78, 0x01];
+                    v.extend_from_slice(&stored);
+                    v.extend_from_slice(&adler32(&data).to_be_bytes());
+                    v
+                }
+                _ => stored.clone(),
+            };
+            let cenc_name = match cenc {
+                Cenc::Gzip => "gzip",
+                Cenc::Zlib => "zlib",
+                _ => "deflate",
+            };
+            // blocks of 4 x 16 = 64 bytes: ring capacity 128 (write_size 127)
+            for k in [1usize, 20, 63, 64, 100, 128, 200, 320, 1000] {
+                for with_cl in [false, true] {
+                    let mut stream2 = stream.clone();
+                    stream2.extend(std::iter::repeat(0u8).take(k));
+                    let oti = scheme_oti(0, 16, 4, 0, true);
+                    let spec = ObjSpec { content: stream2.clone(), cenc: Cenc::Null, inband_cenc: false, md5: false, oti: None, transfers: 1 };
+                    let sess = match make_session(&oti, &[spec], 1, 1) {
+                        Some(s) => s,
+                        None => continue,
+                    };
+                    let o = sess.objs[0].clone();
+                    let cl = if with_cl { format!(" Content-Length=\"{}\"", size) } else { String::new() };
+                    let xml = fdt_xml(&[format!(
+                        "<File TOI=\"{}\" Content-Location=\"file:///o0\"{} Transfer-Length=\"{}\" Content-Encoding=\"{}\" FEC-OTI-FEC-Encoding-ID=\"0\" FEC-OTI-Maximum-Source-Block-Length=\"4\" FEC-OTI-Encoding-Symbol-Length=\"16\"/>",
+                        o.toi, cl, stream2.len(), cenc_name
+                    )]);
+                    // the table maps the STREAM (without the extra bytes) to the data; no `expect`: completion depends on k
+                    let mut h: Vec<Option<Vec<u8>>> = vec![Some(format!("#zmap {} {}", hex(&stream), hex(&data)).into_bytes())];
+                    h.extend(fdt_packets(7, &xml).into_iter().map(Some));
+                    for raw in &sess.pkts {
+                        if alc::parse_alc_pkt(raw).map(|p| p.lct.toi == o.toi).unwrap_or(false) {
+                            h.push(Some(raw.clone()));
+                        }
+                    }
+                    h.push(None);
+                    let cc = CaseCfg { expect_mode: None, ..Default::default() };
+                    r.ctx.count("cenc-trailing");
+                    r.case("cenc-trailing", &cc, &sess, &[], &h, false);
+                }
+            }
+        }
+    }
+
+    // ---- 19c. RaptorQ Scheme-Specific-Info from the FDT that the RaptorQ library asserts on (/repo 2addd2e, agent recv): Al = 0, Al not
+    //            dividing E, N = 0 - the FDT parser takes the 4 bytes as they are (the EXT_FTI parser validates Al); BlockDecoder::init
+    //            must refuse the block (object -> error), not panic.  Genuine RaptorQ packets without EXT_FTI, hand-written FDT.
+    for (z, n, al) in [(1u8, 1u16, 0u8), (1, 0, 4), (1, 0, 0), (1, 1, 3), (1, 1, 5), (1, 1, 32)] {
+        let oti = scheme_oti(6, 16, 4, 2, false);
+        let spec = ObjSpec { content: content(&mut rng, 100), cenc: Cenc::Null, inband_cenc: false, md5: false, oti: None, transfers: 1 };
+        let sess = match make_session(&oti, &[spec], 1, 1) {
+            Some(s) => s,
+            None => continue,
+        };
+        let o = sess.objs[0].clone();
+        let ssi = { use base64::Engine; base64::engine::general_purpose::STANDARD.encode([z, (n >> 8) as u8, (n & 0xff) as u8, al]) };
+        let xml = fdt_xml(&[format!(
+            "<File TOI=\"{}\" Content-Location=\"file:///o0\" Content-Length=\"100\" Transfer-Length=\"{}\" FEC-OTI-FEC-Encoding-ID=\"6\" FEC-OTI-Maximum-Source-Block-Length=\"4\" FEC-OTI-Encoding-Symbol-Length=\"16\" FEC-OTI-Scheme-Specific-Info=\"{}\"/>",
+            o.toi, o.transfer.len(), ssi
+        )]);
+        for fdt_first in [true, false] {
+            let mut h: Vec<Option<Vec<u8>>> = vec![Some(format!("#expect {} n C09:complete-after-decoder-error", o.toi).into_bytes())];
+            let objp: Vec<Vec<u8>> = sess.pkts.iter().filter(|raw| alc::parse_alc_pkt(raw).map(|p| p.lct.toi == o.toi).unwrap_or(false)).cloned().collect();
+            if fdt_first {
+                h.extend(fdt_packets(7, &xml).into_iter().map(Some));
+                h.extend(objp.into_iter().map(Some));
+            } else {
+                // two packets into the cache first, then the FDT (replay of the cache), then the rest
+                h.extend(objp.iter().take(2).cloned().map(Some));
+                h.extend(fdt_packets(7, &xml).into_iter().map(Some));
+                h.extend(objp.into_iter().skip(2).map(Some));
+            }
+            h.push(None);
+            let cc = CaseCfg { expect_mode: None, ..Default::default() };
+            r.ctx.count("fdt-rq-ssi");
+            r.case("fdt-rq-ssi", &cc, &sess, &[], &h, false);
+        }
+    }
+
     // ---- 20. OBJECT-level FTI poisoning (review batch 3): ONE forged datagram of the TOI with a conflicting EXT_FTI (transfer length
     //           2^40, another E, another B) arrives BEFORE the FDT and the genuine packets; the FDT is the authority: the object must
     //           be delivered byte-exact (before the repair in attach_fdt it ended `interrupted`)
